@@ -415,3 +415,6 @@ def run(report, repo):
   from sa.rules import extra4  # pylint: disable=g-import-not-at-top
   report.guard(extra4.stop_wait_is_constant, report, repo, 'C03-R9')
   report.guard(c01.r3_from_outcome, report, repo, rule='C03-R10')
+  from sa.rules import extra5  # pylint: disable=g-import-not-at-top
+  report.guard(extra5.executor_abort_callers, report, repo, 'C03-R9')
+  report.guard(extra5.profile_stats_is_total, report, repo, 'C03-R10')
